@@ -183,6 +183,35 @@ func genC18Mut(e *emitter, n int) {
 		}
 		m := target.AsMap()
 		op, key, valS, after, omit := "", "", "-", "panic", false
+		if isStruct && e.rng.Intn(5) == 0 {
+			// two Sets on different fields through ONE handle: the second must not undo the
+			// first (a handle on a struct held by value in a map works on replacements)
+			settable := []int{0, 1, 5, 6, 8, 9}
+			i1 := settable[e.rng.Intn(len(settable))]
+			i2 := settable[e.rng.Intn(len(settable))]
+			if i1 == i2 {
+				continue
+			}
+			f1, f2 := mutFields[i1], mutFields[i2]
+			v1, v2 := f1.vals[e.rng.Intn(len(f1.vals))], f2.vals[e.rng.Intn(len(f2.vals))]
+			after2 := "panic"
+			func() {
+				defer func() { recover() }()
+				m.Set(f1.key, value.NewValueInterface(v1))
+				m.Set(f2.key, value.NewValueInterface(v2))
+				after2 = sexpValue(canonU(root.Unstructured()))
+			}()
+			var ps strings.Builder
+			ps.WriteString("(path")
+			for _, s := range path {
+				ps.WriteString(" " + s.sexp())
+			}
+			ps.WriteString(")")
+			e.line(fmt.Sprintf("(c18.mut2 %s %s %s %s %s %s %s %s %s %s)", quote(kind), before, ps.String(),
+				quote(f1.key), sexpValue(normUnstructured(v1)), sexpBool(f1.omit),
+				quote(f2.key), sexpValue(normUnstructured(v2)), sexpBool(f2.omit), after2))
+			continue
+		}
 		if isStruct {
 			f := mutFields[e.rng.Intn(len(mutFields))]
 			key, omit = f.key, f.omit
